@@ -162,7 +162,7 @@ def suite_one(m):
                  % (d, d, ' --deselect '.join(BASE_FAIL)))
     shutil.rmtree(d, ignore_errors=True)
     last = out.strip().splitlines()[-1] if out.strip() else ''
-    ok = ('92 passed' in last) and ('failed' not in last) and ('error' not in last)
+    ok = last.startswith('90 passed, 2 skipped') and ('failed' not in last) and ('error' not in last)   # docs/ is not copied: 2 doc tests skip
     return m['id'], ok, last[:100]
 
 
@@ -206,6 +206,25 @@ def check(jobs, only, limit):
     done = {}
     if os.path.exists(WORK + '/check.json'): done = json.load(open(WORK + '/check.json'))
     todo = [m for m in ms if su.get(m['id'], {}).get('survives_suite') and m['id'] not in done and (not only or set(only) & set(m['props']))]
+    # order: one mutant per source line first (comparison / boolean / statement mutants before constants), files taking turns,
+    # so that a sweep that is stopped early has still looked at every function of every file
+    pri = lambda m: (0 if m['kind'].startswith(('cmp', 'bool', 'not')) else 1 if m['kind'].startswith(('stmt', 'cond')) else 2)
+    byfile = {}
+    for m in sorted(todo, key=lambda m: (m['file'], m['line'], pri(m), m['id'])):
+        byfile.setdefault(m['file'], []).append(m)
+    ordered = []
+    for f, L in byfile.items():
+        seen, first, rest = set(), [], []
+        for m in L:
+            (rest if (m['line']) in seen else first).append(m)
+            seen.add(m['line'])
+        byfile[f] = first + rest
+    k = 0
+    while any(byfile.values()):
+        for f in list(byfile):
+            if byfile[f]:
+                ordered.append(byfile[f].pop(0))
+    todo = ordered
     if limit: todo = todo[:limit]
     print('to check', len(todo), flush=True)
     t0 = time.time()
